@@ -112,8 +112,14 @@ func (s *srvSim) check() {
 					if gap > 1500*time.Millisecond {
 						r.out.Probes["sync_block_interval_above_1500ms"]++
 					}
-					if gap > 2*blockTimeMS*time.Millisecond {
-						r.violate(sim.Violatef("liveness", "liveness/block-interval", "fault-free configuration (delays <= %d ms, block time %d ms): block %d is first seen %d ms after block %d", s.sp.MaxDelayMS, blockTimeMS, x, gap/time.Millisecond, x-1))
+					// (the block time is a policy value since Echidna: a committee transaction of the workload may have
+					// changed it; the bound follows what the chain says at the previous block and now)
+					bt := max(blockTimeMS, int(bc.GetMillisecondsPerBlock()))
+					if bt > s.maxBlockTimeMS {
+						s.maxBlockTimeMS = bt
+					}
+					if gap > 2*time.Duration(s.maxBlockTimeMS)*time.Millisecond {
+						r.violate(sim.Violatef("liveness", "liveness/block-interval", "fault-free configuration (delays <= %d ms, block time %d ms): block %d is first seen %d ms after block %d", s.sp.MaxDelayMS, s.maxBlockTimeMS, x, gap/time.Millisecond, x-1))
 						return
 					}
 				}
